@@ -34,7 +34,10 @@ RULE = ('meshes over the eight types the property names (line, tri, quad, tet, t
         '(arbitrary connectivity, 1-8 types mixed) and geometric (conforming bricks, tet meshes promoted to tet2 with exact '
         'mid-edge nodes); node ids dense / sparse / ~1e6 / ~2e9 / prefix-like in ascending / descending / shuffled storage order, '
         'unreferenced nodes; 1-4 nodal variables of rank 1-2 (widths 1, 2, 3, 6, 9; float and int) plus rank-3 ones (which the '
-        'export drops by design); a case is one mesh + variables written with write("vtk") and read with meshio.read; '
+        'export drops by design); in 35% of the cases a share of the variables is stored under a dict key that differs from '
+        'its FEMAttribute.name (one name shared by several keys, the key of another variable, a fresh name; attached by '
+        'nodal_data[key] = attribute, update({key: attribute}) or set_attribute_data(key, data, name=...)): the point-data name '
+        'is the KEY; a case is one mesh + variables written with write("vtk") and read with meshio.read; '
         'non-trivial when the storage order is not 1..n ascending (ids differ from positions + 1); stream "updated": the same '
         'meshes after nodes.update(subset or permutation of the existing ids, the same coordinates, allow_overwrite=True) on the '
         'object (histories construct -> update -> export; the mesh compared is the one the object reports after the update)')
@@ -90,7 +93,34 @@ def gen_vars(rnd, m, misaligned=False):
             rnd.shuffle(v['ids'])
         v['misaligned'] = True
         v['shape'] = v['shape'] if len(v['shape']) < 2 else [9]
+    if rnd.random() < .35:
+        rename_some(rnd, out)
     return out
+
+
+def rename_some(rnd, vs):
+    """a share of the variables is stored in nodal_data under a dict KEY (v['name']: the variable's name for the user,
+    hence the point-data name) that differs from its FEMAttribute.name (v['attr']): one name shared by several keys, the
+    key of another variable, or a fresh name; attached through nodal_data[key] = attribute, nodal_data.update({key:
+    attribute}) or nodal_data.set_attribute_data(key, data, name=...)"""
+    keys = [v['name'] for v in vs]
+    for v in vs:
+        if rnd.random() < .65:
+            others = [k for k in keys if k != v['name']]
+            r = rnd.random()
+            v['attr'] = 'S' if r < .45 else rnd.choice(others) if (r < .7 and others) else 'A' + v['name']
+            v['how'] = rnd.choice(['setitem', 'update', 'set_attribute_data'])
+
+
+def count_renames(ctx, vs, stream=''):
+    ren = [v for v in vs if v.get('attr', v['name']) != v['name']]
+    for v in ren:
+        ctx.count(f'{stream}key != FEMAttribute.name: rank{len(v["shape"]) + 1} variable attached by {v["how"]}')
+    low = [v.get('attr', v['name']) for v in vs if len(v['shape']) < 2]
+    if len(set(low)) < len(low):
+        ctx.count(f'{stream}key != FEMAttribute.name: cases with two keys (rank <= 2) sharing one attribute name')
+    if any(v['attr'] in {w['name'] for w in vs} for v in ren):
+        ctx.count(f'{stream}key != FEMAttribute.name: cases with an attribute named like another key')
 
 
 def gen_update(rnd, m):
@@ -128,7 +158,16 @@ def build(m, vs, upd=None):
     for v in vs:
         data = np.array([[int(x) if v['int'] else float(x) for x in r] for r in v['rows']]).reshape(
             [len(v['ids'])] + list(v['shape']))
-        fd.nodal_data[v['name']] = FEMAttribute(v['name'], np.array(v['ids']), data, silent=True)
+        key, attr, how, nd = v['name'], v.get('attr', v['name']), v.get('how', 'setitem'), fd.nodal_data
+        if how == 'set_attribute_data' and not (len(nd) and [int(i) for i in list(nd.values())[0].ids] == list(v['ids'])
+                                                and nd.are_same_lengths()):
+            how = 'setitem'      # set_attribute_data binds the rows to the ids of the first attribute
+        if how == 'set_attribute_data':
+            G.quiet(nd.set_attribute_data, key, data, name=attr)
+        elif how == 'update':
+            nd.update({key: FEMAttribute(attr, np.array(v['ids']), data, silent=True)})
+        else:
+            nd[key] = FEMAttribute(attr, np.array(v['ids']), data, silent=True)
     return fd
 
 
@@ -284,7 +323,9 @@ def one_case(ctx, rnd, pending, stream='main'):
     impl = run_real(ctx, m, vs)
     ids = [i for i, _ in m['nodes']]
     ctx.case((stream, G.enc_mesh(m), repr(vs)),
-             sample={'stream': stream, 'mesh': G.describe(m), 'vars': [(v['name'], v['shape'], 'int' if v['int'] else 'float') for v in vs],
+             sample={'stream': stream, 'mesh': G.describe(m),
+                     'vars': [(v['name'], v['shape'], 'int' if v['int'] else 'float') + ((f"FEMAttribute.name={v['attr']}", v['how'])
+                                                                                          if 'attr' in v else ()) for v in vs],
                      'outcome': impl[0] if impl[0] == 'ok' else impl[1]},
              nontrivial=stream == 'main' and ids != list(range(1, len(ids) + 1)))
     if stream == 'main':
@@ -297,6 +338,7 @@ def one_case(ctx, rnd, pending, stream='main'):
             ctx.count('etype:' + t)
         for v in vs:
             ctx.count(f"nodal:rank{len(v['shape']) + 1}:width{int(np.prod(v['shape'])) if v['shape'] else 1}:" + ('int' if v['int'] else 'float'))
+        count_renames(ctx, vs)
         if impl[0] == 'ok':
             for sig, text in oracle(m, vs, impl[1]):
                 ctx.fail(sig, text, case_json(m, vs), text)
@@ -342,6 +384,7 @@ def updated_case(ctx, rnd, pending):
     ctx.count('updated:storage-order:' + ('changed' if ids != ids2 else 'kept'))
     ctx.count('updated:ids:' + ('one' if len(upd) == 1 else 'all-permuted' if len(upd) == len(ids) else 'subset'))
     ctx.count('updated:outcome:' + (impl[0] if impl[0] == 'ok' else 'raised:' + impl[1]))
+    count_renames(ctx, vs, 'updated:')
     # the update is semantically the identity (same id -> coordinates map): recorded, it is not a clause of C06
     ctx.count('updated:id->coordinates:' + ('kept' if dict(m['nodes']) == dict(m2['nodes']) and len(ids) == len(ids2) else 'CHANGED'))
     if impl[0] == 'ok':
